@@ -141,3 +141,26 @@ class Obl:
 # for replay without interposing on the C library.
 def sysrename_flags(names):
     return ["-D%s=vf_%s" % (n, n) for n in names]
+
+
+def load_plan(pid):
+    import importlib.util
+    spec = importlib.util.spec_from_file_location("plan_" + pid, os.path.join(VERIF, "harness", pid, "plan.py"))
+    m = importlib.util.module_from_spec(spec)
+    spec.loader.exec_module(m)
+    return m
+
+
+def borrow(pid, names, tier):
+    """Obligations of another property's plan, decided again as part of this one (shared harness files)."""
+    out = []
+    for o in load_plan(pid).obligations(tier):
+        if o.name in names:
+            if not o.harness.startswith("../"):
+                o.harness = "../%s/%s" % (pid, o.harness)
+            o.lib = [(l if ("/" in l or not os.path.exists(os.path.join(VERIF, "harness", pid, l))) else "harness/%s/%s" % (pid, l)) for l in o.lib]
+            out.append(o)
+    missing = set(names) - {o.name for o in out}
+    if missing:
+        raise PlanError("plan %s has no obligation(s) %s" % (pid, ",".join(sorted(missing))))
+    return out
